@@ -17,6 +17,15 @@ CHECKS = {
         "bounds <=16 options, expression depth <=3, <=10 assignments.",
         "DESIGN.md 3/C01",
     ),
+    "C03": (
+        "exploration",
+        "model-based history testing: invariant 'incremental == recomputed == permuted read order == fresh instance' after every generated operation (Hypothesis)",
+        "Generated trees x generated histories of set/unset/reset/reset-menu/load/read; after every step the complete snapshot is compared "
+        "with the snapshot after discarding all caches (two read orders) and, at the end, with a fresh instance given the same user state. "
+        "Exploration: histories are unbounded; the oracle is the implementation's own from-scratch evaluation, i.e. a metamorphic relation.",
+        "Trusted: Kconfig._invalidate_all() really discards every cache (the anchor mechanism). Bounds: <=14 options, <=18 operations.",
+        "DESIGN.md 3/C03",
+    ),
 }
 
 NOT_YET = {}
